@@ -327,6 +327,13 @@ class LinearPaths:
         self._progress_log("merge_linear_paths", 0.95)
     if isinstance(merged.name, list):
       merged.name = "_".join(merged.name)
+      # the joined name can be the name of another line (e.g. segments
+      # a, b and a_b): it is made unique
+      base = merged.name
+      n = 2
+      while self.line(merged.name) is not None:
+        merged.name = "{}_{}".format(base, n)
+        n += 1
     ortag = merged.get("or")
     if isinstance(ortag, list):
       merged.set_datatype("or", "Z")
